@@ -188,6 +188,10 @@ Definition jumps_in (g : list ainstr) : Prop :=
   (forall k a b, nth_error g k = Some (OpLoop, [a; b]) ->
      N.to_nat (u16 a b) <= pos g k + 3 /\ sbnd g (pos g k + 3 - N.to_nat (u16 a b))).
 
+Definition handlers_in (g : list ainstr) : Prop :=
+  forall k a b c0 d, nth_error g k = Some (OpPushExcHandler, [a; b; c0; d]) ->
+    sbnd g (pos g k + 5 + N.to_nat (u16 a b)) /\ sbnd g (pos g k + 5 + N.to_nat (u16 a b) + N.to_nat (u16 c0 d)).
+
 Inductive jgood_const : const -> Prop :=
 | jgc_num x : jgood_const (KNum x)
 | jgc_str x : jgood_const (KStr x)
@@ -197,6 +201,7 @@ with jgood_func : func -> Prop :=
     code = flat g ->
     Forall (iok ks (N.to_nat u)) g ->
     jumps_in g ->
+    handlers_in g ->
     jf_ok g ->
     (exists g0, g = g0 ++ [(OpReturn, [])]) ->
     Forall jgood_const ks ->
@@ -697,13 +702,13 @@ Proof.
     + inversion H; subst. right. rewrite Hpp. exact H3.
     + destruct (N4 _ _ _ _ _ H) as [?|Hin]. left; eapply bnd_sp; eauto.
       apply (Permutation_in _ HP) in Hin. destruct Hin as [Hp|Hin]; auto. exfalso.
-      apply (pos_gap g k (length pre) _ 2 H); simpl; try lia.
+      apply (pos_gap g k (length pre) _ 2 H); simpl; try lia; try (apply Nat.lt_le_incl; exact Hlen).
   - (* catch *) simpl. intros p t [E|Hin] k a0 b0 c0 d0 H Hp; rewrite (F2sp_pos _ _ Hsp) in *.
     + inversion E; subst p t.
       apply Hrep in H. destruct H as [[Hk H]|[Hk H]].
       * inversion H; subst. rewrite Hpp, Hv. lia.
       * exfalso. apply Hk. eapply Hk0; eauto.
-    + apply (nth_error_replace pre (OpPushExcHandler, [a; b; cc; d])) in H. destruct H as [[Hk H]|[Hk H]].
+    + apply Hrep in H. destruct H as [[Hk H]|[Hk H]].
       * exfalso. subst k. destruct (N6 _ _ Hin) as [Hni _]. apply Hni. apply in_or_app. right.
         eapply Permutation_in. apply Permutation_sym. exact HP. left. lia.
       * eapply N5; eauto.
@@ -747,20 +752,20 @@ Proof.
   - intros x Hx. rewrite Hl. auto.
   - (* h1 *) intros k a0 b0 c0 d0 H. rewrite (F2sp_pos _ _ Hsp).
     apply Hrep in H. destruct H as [[Hk H]|[Hk H]].
-    + inversion H; subst. left. rewrite Hpp, Hcs. eapply bnd_sp; eauto.
+    + subst k; inversion H; subst a0 b0 c0 d0. left. rewrite Hpp, Hcs. eapply bnd_sp; eauto.
     + destruct (N3 _ _ _ _ _ H) as [?|Hin]. left; eapply bnd_sp; eauto.
       apply (Permutation_in _ HP) in Hin. destruct Hin as [Hp|Hin]; auto. exfalso.
       apply (pos_gap g (length pre) k _ 2 Hn0); simpl; try lia. apply Nat.lt_le_incl. eapply nth_error_lt; eauto.
   - (* h2 *) intros k a0 b0 c0 d0 H. rewrite (F2sp_pos _ _ Hsp).
     apply Hrep in H. destruct H as [[Hk H]|[Hk H]].
-    + inversion H; subst. left. rewrite Hpp, Hcs, Hv.
+    + subst k; inversion H; subst a0 b0 c0 d0. left. rewrite Hpp, Hcs, Hv.
       replace (cs + (length (flat g) - cs)) with (length (flat g')) by lia. exact Hend.
     + destruct (N4 _ _ _ _ _ H) as [?|Hin]. left; eapply bnd_sp; eauto.
       apply (Permutation_in _ HP) in Hin. destruct Hin as [Hp|Hin]; auto. exfalso. apply Hk.
-      apply (pos_inj g); try lia. apply Nat.lt_le_incl. eapply nth_error_lt; eauto.
+      apply (pos_inj g); [apply Nat.lt_le_incl; eapply nth_error_lt; eauto | apply Nat.lt_le_incl; exact Hlen | rewrite Hpp; lia].
   - (* catch *) intros p t Hin k a0 b0 c0 d0 H Hp. rewrite (F2sp_pos _ _ Hsp) in *.
     apply Hrep in H. destruct H as [[Hk H]|[Hk H]].
-    + inversion H; subst. eapply N5; eauto.
+    + subst k; inversion H; subst a0 b0 c0 d0. eapply N5; eauto.
     + eapply N5; eauto.
   - (* cfresh *) intros p t Hin. destruct (N6 _ _ Hin) as [A B]. split. intros Hx. apply A. auto. rewrite Hl. auto.
 Qed.
@@ -773,10 +778,10 @@ Proof. apply jinv_same; reflexivity. Qed.
 Lemma TJ_push {A} n X fs (m : C A) :
   (forall s G a s', sinv s G -> holds fs s G -> m s = COk (a, s') ->
      exists i l, s' = pushb s (enc i) l /\ iok (k_consts (s_cur s)) (length (k_upvalues (s_cur s))) i /\
-                 is_jump16 (fst i) = false /\ fst i <> OpLoop /\ i <> (OpJumpFinally, [])) ->
+                 is_jump16 (fst i) = false /\ fst i <> OpLoop /\ i <> (OpJumpFinally, []) /\ fst i <> OpPushExcHandler) ->
   TJ n X fs m (fun _ => fs) (fun _ => X) n.
 Proof.
-  intros Hm s G a s' Hs Hf Hj H. destruct (Hm _ _ _ _ Hs Hf H) as (i & l & -> & Hi & H1 & H2 & H3).
+  intros Hm s G a s' Hs Hf Hj H. destruct (Hm _ _ _ _ Hs Hf H) as (i & l & -> & Hi & H1 & H2 & H3 & H4).
   destruct (push_ok fs s G i l Hs Hf Hi) as (A1 & A2 & A3).
   eexists. split; [exact A1|]. split; [exact A2|]. split; [exact A3|].
   cbn [fst]. apply jinv_pushb. apply jinv_push; auto.
@@ -787,7 +792,7 @@ Lemma TJ_emit_op n X fs o l :
 Proof.
   intros Ho Hjf. apply TJ_push. intros s G a s' Hs Hf H. rewrite emit_op_push in H. inversion H; subst.
   exists (o, []), l. split; auto. split. unfold iok. simpl. rewrite Ho. auto.
-  split; [|split]; simpl; try (destruct o; try discriminate; auto; fail); try (intros E; inversion E; auto).
+  split; [|split; [|split]]; simpl; try (destruct o; try discriminate; auto; fail); try (intros E; inversion E; auto).
 Qed.
 
 Lemma scope_end_ops_L0J d ls : Forall (fun o => layout_of o = L0 /\ o <> OpJumpFinally) (scope_end_ops d ls).
@@ -812,7 +817,7 @@ Lemma TJ_emit_op8 n X fs o a l :
 Proof.
   intros Ho Hu. apply TJ_push. intros s G a0 s' Hs Hf H. rewrite emit_op8_push in H. inversion H; subst.
   exists (o, [a]), l. split; auto. split. unfold iok. simpl. rewrite Ho. exists a. split; auto. rewrite Hu. discriminate.
-  split; [|split]; simpl; try (destruct o; try discriminate; auto; fail); try discriminate.
+  split; [|split; [|split]]; simpl; try (destruct o; try discriminate; auto; fail); try discriminate.
 Qed.
 
 Lemma TJ_emit_op16 n X fs o a l :
@@ -820,7 +825,7 @@ Lemma TJ_emit_op16 n X fs o a l :
   TJ n X fs (emit_op16 o a l) (fun _ => fs) (fun _ => X) n.
 Proof.
   intros Ho Hc Hj Hl Hstr. apply TJ_push. intros s G a0 s' Hs Hf H. rewrite emit_op16_push in H. inversion H; subst.
-  eexists _, l. split; [reflexivity|]. split; [|split; [auto|split; [auto|discriminate]]]. unfold iok. simpl. rewrite Ho.
+  eexists _, l. split; [reflexivity|]. split; [|split; [auto|split; [auto|split; [discriminate|simpl; destruct o; try discriminate; auto]]]]. unfold iok. simpl. rewrite Ho.
   eexists _, _. split; [reflexivity|]. rewrite u16_split. split; [|intros; contradiction].
   intros Hs'. apply (holds_in _ _ _ _ Hf (Hstr Hs')).
 Qed.
@@ -829,7 +834,7 @@ Lemma TJ_emit_op16_8 n X fs o a b l :
   layout_of o = L16_8 -> In (FStr a) fs -> TJ n X fs (emit_op16 o a l ;;; emit_byte b l) (fun _ => fs) (fun _ => X) n.
 Proof.
   intros Ho Hstr. apply TJ_push. intros s G a0 s' Hs Hf H. rewrite emit_op16_8_push in H. inversion H; subst.
-  eexists _, l. split; [reflexivity|]. split; [|split; [|split]; simpl; try discriminate; destruct o; try discriminate; auto].
+  eexists _, l. split; [reflexivity|]. split; [|split; [|split; [|split]]; simpl; try discriminate; destruct o; try discriminate; auto].
   unfold iok. simpl. rewrite Ho.
   eexists _, _, _. split; [reflexivity|]. rewrite u16_split. apply (holds_in _ _ _ _ Hf Hstr).
 Qed.
@@ -855,9 +860,9 @@ Proof.
     all: try (left; repeat split; auto; discriminate).
     all: right; repeat split; auto; discriminate. }
   destruct Hcase as [(E & Hl & J1 & J2 & Hu)|(E & Hl & J1 & J2 & Hso & Hc & Hk)]; rewrite E in H.
-  - rewrite emit_op8_push in H. inversion H; subst. eexists _, l. split; [reflexivity|]. split; [|split; [auto|split; [auto|discriminate]]].
+  - rewrite emit_op8_push in H. inversion H; subst. eexists _, l. split; [reflexivity|]. split; [|split; [auto|split; [auto|split; [discriminate|simpl; destruct o; try discriminate; auto]]]].
     unfold iok. simpl. rewrite Hl. eauto.
-  - rewrite emit_op16_push in H. inversion H; subst. eexists _, l. split; [reflexivity|]. split; [|split; [auto|split; [auto|discriminate]]].
+  - rewrite emit_op16_push in H. inversion H; subst. eexists _, l. split; [reflexivity|]. split; [|split; [auto|split; [auto|split; [discriminate|simpl; destruct o; try discriminate; auto]]]].
     unfold iok. simpl. rewrite Hl. eexists _, _. split; [reflexivity|]. rewrite u16_split.
     split; auto. intros; contradiction.
 Qed.
@@ -914,7 +919,7 @@ Proof.
 Qed.
 
 Lemma TJ_patch_jump n X X' fs p :
-  In (FHole p) fs -> incl X (p :: X') -> TJ n X fs (patch_jump p) (fun _ => fs) (fun _ => X') n.
+  In (FHole p) fs -> Permutation X (p :: X') -> TJ n X fs (patch_jump p) (fun _ => fs) (fun _ => X') n.
 Proof.
   intros Hin HX s G a s' Hs Hf Hj H. unfold patch_jump, cbind, code_len in H.
   destruct (N.ltb _ _) eqn:E; [discriminate|]. rewrite patch16_run in H. inversion H; subst; clear H.
@@ -943,7 +948,7 @@ Lemma TJ_patch_jumps n X fs ps :
   (forall p, In p ps -> In (FHole p) fs) -> TJ n (ps ++ X) fs (patch_jumps ps) (fun _ => fs) (fun _ => X) n.
 Proof.
   induction ps; simpl; intros H. apply TJ_ret.
-  eapply TJ_bind. apply TJ_patch_jump with (X' := ps ++ X). apply H; auto. apply incl_refl. intros u. apply IHps. auto.
+  eapply TJ_bind. apply TJ_patch_jump with (X' := ps ++ X). apply H; auto. apply Permutation_refl. intros u. apply IHps. auto.
 Qed.
 
 Lemma patch_flat_h0 pre a b c d post lo hi :
@@ -977,27 +982,74 @@ Proof.
   rewrite <- !app_assoc. reflexivity.
 Qed.
 
-Lemma TJ_patch_offset_at n X fs pos_ off p :
-  In (FHandler p) fs -> (pos_ = p + 0 \/ pos_ = p + 2) -> TJ n X fs (patch_offset_at pos_ off) (fun _ => fs) (fun _ => X) n.
+Lemma handler_iok pre a b c d a' b' c' d' post ks nu :
+  Forall (iok ks nu) (pre ++ (OpPushExcHandler, [a; b; c; d]) :: post) ->
+  Forall (iok ks nu) (pre ++ (OpPushExcHandler, [a'; b'; c'; d']) :: post).
 Proof.
-  intros Hin Hpos s G a s' Hs Hf Hj H. unfold patch_offset_at, cbind, code_len in H.
+  intros Hk. apply Forall_app in Hk. destruct Hk as [K1 K2]. inversion K2; subst.
+  apply Forall_app. split; auto. constructor; auto. unfold iok. simpl. eauto 6.
+Qed.
+
+(* first handler operand, together with the read of the catch start that follows it *)
+Lemma TJ_patch_h1_k {A} n X X' fs hp (K : nat -> C A) R X2 n2 :
+  In (FHandler hp) fs -> Permutation X (hp :: X') -> In (hp + 2) X' ->
+  (forall cs, TJ n X' (FCatch hp cs :: FBound cs :: fs) (K cs) R X2 n2) ->
+  TJ n X fs (cbind (patch_offset_at hp (hp + 4)) (fun _ => cbind code_len K)) R X2 n2.
+Proof.
+  intros Hin HP H3 HK s G a s' Hs Hf Hj H. unfold cbind at 1 in H. unfold patch_offset_at, cbind, code_len in H.
+  destruct (N.ltb _ _); [discriminate|]. rewrite patch16_run in H.
+  pose proof (holds_in _ _ _ _ Hf Hin) as Hh. simpl in Hh.
+  destruct Hh as (pre & a0 & b0 & c0 & d0 & post & Hg & ->).
+  destruct Hs as [Hc Ho']. pose proof (ci_code _ _ Hc) as Hcode.
+  set (v := N.of_nat (length (k_code (s_cur s)) - (length (flat pre) + 1 + 4))) in *.
+  set (g' := pre ++ (OpPushExcHandler, [(v mod 256)%N; (v / 256)%N; c0; d0]) :: post).
+  assert (Ecode : set_nth (S (length (flat pre) + 1)) (v / 256)%N (set_nth (length (flat pre) + 1) (v mod 256)%N (k_code (s_cur s))) = flat g').
+  { rewrite Hcode, Hg. pose proof (patch_flat_h0 pre a0 b0 c0 d0 post (v mod 256)%N (v / 256)%N) as E.
+    rewrite !Nat.add_0_r in E. exact E. }
+  assert (Hsp : Forall2 sp (fst G) g').
+  { rewrite Hg. apply Forall2_app. apply F2sp_refl. constructor; [|apply F2sp_refl]. right. simpl. auto. }
+  destruct (patched_ok fs s G g' _ (conj Hc Ho') Hf Ecode Hsp) as (A1 & A2 & A3).
+  { intros ks nu Hk. rewrite Hg in Hk. eapply handler_iok; eauto. }
+  match type of H with K ?cs ?st = _ => set (cs0 := cs) in *; set (s1 := st) in * end.
+  assert (Hcs : cs0 = length (flat (fst G))).
+  { unfold cs0, s1. cbn [s_cur k_code with_code]. rewrite Ecode. symmetry. apply F2sp_len; auto. }
+  assert (Hj1 : jinv n X' (FCatch (length (flat pre) + 1) cs0 :: FBound cs0 :: fs) (s_cur s1) g').
+  { apply jinv_same with (c := s_cur s); [reflexivity|reflexivity|reflexivity|].
+    eapply jinv_weaken with (fs := FCatch (length (flat pre) + 1) cs0 :: fs); [reflexivity|simpl; apply incl_refl|].
+    rewrite Hcs, Hg. unfold g'. apply jinv_patch_h1 with (X := X); auto.
+    - rewrite <- Hg. exact Hj.
+    - rewrite u16_split. unfold v. rewrite Nat2N.id. rewrite Hcode, Hg. lia.
+    - replace (length (flat pre) + 3) with (length (flat pre) + 1 + 2) by lia. exact H3. }
+  assert (Hf1 : holds (FCatch (length (flat pre) + 1) cs0 :: FBound cs0 :: fs) s1 (g', snd G)).
+  { constructor. exact I. constructor; [|exact A3]. simpl. apply bnd_boundary. rewrite Hcs.
+    replace (length (flat (fst G))) with (length (flat g')). apply bnd_end. symmetry. apply F2sp_len; auto. }
+  destruct (HK cs0 s1 (g', snd G) a s' A1 Hf1 Hj1 H) as (G5 & B1 & B2 & B3 & B4).
+  exists G5. split; auto. split; auto. eapply le_trans; eauto.
+Qed.
+
+Lemma TJ_patch_h2 n X X' fs hp cs :
+  In (FHandler hp) fs -> In (FCatch hp cs) fs -> Permutation X ((hp + 2) :: X') ->
+  TJ n X fs (patch_offset_at (hp + 2) cs) (fun _ => fs) (fun _ => X') n.
+Proof.
+  intros Hin Hcat HP s G a s' Hs Hf Hj H. unfold patch_offset_at, cbind, code_len in H.
   destruct (N.ltb _ _); [discriminate|]. rewrite patch16_run in H. inversion H; subst; clear H.
   pose proof (holds_in _ _ _ _ Hf Hin) as Hh. simpl in Hh.
-  destruct Hh as (pre & a & b & c & d & post & Hg & ->).
+  destruct Hh as (pre & a0 & b0 & c0 & d0 & post & Hg & ->).
   destruct Hs as [Hc Ho']. pose proof (ci_code _ _ Hc) as Hcode.
-  set (v := N.of_nat (length (k_code (s_cur s)) - off)) in *.
-  assert (exists g', set_nth (S pos_) (v / 256)%N (set_nth pos_ (v mod 256)%N (k_code (s_cur s))) = flat g' /\
-                     (exists a' b' c' d', g' = pre ++ (OpPushExcHandler, [a'; b'; c'; d']) :: post)) as (g' & Ecode & Hg').
-  { destruct Hpos as [-> | ->]; eexists; (split; [rewrite Hcode, Hg; first [apply patch_flat_h0 | apply patch_flat_h2] | eauto 6]). }
-  destruct Hg' as (a' & b' & c' & d' & Hg').
+  set (v := N.of_nat (length (k_code (s_cur s)) - cs)) in *.
+  set (g' := pre ++ (OpPushExcHandler, [a0; b0; (v mod 256)%N; (v / 256)%N]) :: post).
+  assert (Ecode : set_nth (S (length (flat pre) + 1 + 2)) (v / 256)%N (set_nth (length (flat pre) + 1 + 2) (v mod 256)%N (k_code (s_cur s))) = flat g').
+  { rewrite Hcode, Hg. apply patch_flat_h2. }
   assert (Hsp : Forall2 sp (fst G) g').
-  { rewrite Hg, Hg'. apply Forall2_app. apply F2sp_refl. constructor; [|apply F2sp_refl]. right. simpl. auto. }
+  { rewrite Hg. apply Forall2_app. apply F2sp_refl. constructor; [|apply F2sp_refl]. right. simpl. auto. }
   destruct (patched_ok fs s G g' _ (conj Hc Ho') Hf Ecode Hsp) as (A1 & A2 & A3).
-  { intros ks nu Hk. rewrite Hg in Hk. rewrite Hg'. apply Forall_app in Hk. destruct Hk as [K1 K2]. inversion K2; subst.
-    apply Forall_app. split; auto. constructor; auto. unfold iok. simpl. eauto 6. }
+  { intros ks nu Hk. rewrite Hg in Hk. eapply handler_iok; eauto. }
   exists (g', snd G). split; [exact A1|]. split; [exact A2|]. split; [exact A3|].
   cbn [fst]. apply jinv_same with (c := s_cur s); [reflexivity|reflexivity|reflexivity|].
-  rewrite Hg in Hj. rewrite Hg'. eapply jinv_patch_handler; eauto.
+  rewrite Hg in Hj. unfold g'. apply jinv_patch_h2 with (X := X) (cs := cs) (cc := c0) (d := d0); auto.
+  - apply in_cof_iff. exact Hcat.
+  - rewrite u16_split. unfold v. rewrite Nat2N.id. rewrite Hcode, Hg. reflexivity.
+  - replace (length (flat pre) + 3) with (length (flat pre) + 1 + 2) by lia. exact HP.
 Qed.
 
 (* ------------------------------------------------------------------ *)
@@ -1076,25 +1128,61 @@ Proof.
   - rewrite (clean_lof _ Hcl). intros k [].
 Qed.
 
+Lemma hole_not_handler g p : hole_at g p ->
+  forall k a b c0 d, nth_error g k = Some (OpPushExcHandler, [a; b; c0; d]) -> pos g k + 1 <> p /\ pos g k + 3 <> p.
+Proof.
+  intros (pre & o & a0 & b0 & post & -> & Ho & ->) k a b c0 d H.
+  set (g := pre ++ (o, [a0; b0]) :: post) in *.
+  assert (Hn0 : nth_error g (length pre) = Some (o, [a0; b0])).
+  { unfold g. rewrite nth_error_app2, Nat.sub_diag by lia. reflexivity. }
+  assert (Hpp : pos g (length pre) = length (flat pre)) by (unfold g; apply pos_split).
+  assert (Hlen : length pre < length g) by (unfold g; rewrite app_length; simpl; lia).
+  pose proof (nth_error_lt _ _ _ H) as Hk. clearbody g. split; intros E.
+  - assert (k = length pre).
+    { apply (pos_inj g); [apply Nat.lt_le_incl; auto | apply Nat.lt_le_incl; auto | rewrite Hpp; lia]. }
+    assert (Hc : Some (OpPushExcHandler, [a; b; c0; d]) = Some (o, [a0; b0])) by (rewrite <- H; subst k; exact Hn0).
+    inversion Hc; subst; discriminate.
+  - apply (pos_gap g k (length pre) _ 2 H); simpl; try lia. apply Nat.lt_le_incl; auto.
+Qed.
+
 Lemma TJ_push_break n X X' fs p k L r :
-  In (FHole p) fs -> In (FLoopsOf k) fs -> k_loops k = L :: r -> incl X (p :: X') ->
+  In (FHole p) fs -> In (FLoopsOf k) fs -> k_loops k = L :: r -> Permutation X (p :: X') ->
   TJ n X fs (push_break p) (fun _ => fs) (fun _ => X') n.
 Proof.
   intros Hin Hk HL HX s G a s' Hs Hf Hj H. unfold push_break, upd in H. inversion H; subst; clear H.
   assert (Hlo : k_loops (s_cur s) = L :: r).
-  { rewrite <- HL. apply (j_lof _ _ _ _ _ Hj). clear -Hk. induction fs as [|f fs IH]; simpl in *. contradiction.
-    destruct Hk as [->|Hk]. simpl; auto. destruct f; simpl; auto. }
+  { rewrite <- HL. apply (j_lof _ _ _ _ _ Hj). apply in_lof_iff. exact Hk. }
   destruct (k_breaks (s_cur s)) as [|b rb] eqn:E.
   { pose proof (j_len _ _ _ _ _ Hj) as Hl. rewrite E, Hlo in Hl. discriminate. }
   exists G.
+  pose proof (holds_in _ _ _ _ Hf Hin) as Hhole. simpl in Hhole.
   destruct (brk_step fs s G ((p :: b) :: rb) Hs Hf) with (ls := k_loops (s_cur s)) as (A1 & A2 & A3).
-  { simpl. constructor. apply (holds_in _ _ _ _ Hf Hin). destruct Hs as [[] _]. rewrite E in ci_breaks. auto. }
+  { simpl. constructor. exact Hhole. destruct Hs as [[] _]. rewrite E in ci_breaks. auto. }
   split; [exact A1|]. split; [exact A2|]. split; [exact A3|].
+  pose proof (jinv_hcore _ _ _ _ _ Hj) as HC. hc HC. rewrite E in N1, N2, N6. simpl in N1, N2, N6.
+  assert (HPP : Permutation ((b ++ concat rb) ++ X) (p :: (b ++ concat rb) ++ X')).
+  { eapply Permutation_trans. apply Permutation_app_head. exact HX. apply Permutation_sym, Permutation_middle. }
   destruct Hj. constructor; cbn; auto.
   - intros k0 o a0 b0 H1 H2. destruct (j_jumps0 k0 o a0 b0 H1 H2) as [?|[Hb|Hx]]; auto.
     + right; left. rewrite E in Hb. simpl in *. auto.
-    + apply HX in Hx. destruct Hx as [<-|Hx]; [right; left; simpl; auto | auto].
+    + apply (Permutation_in _ HX) in Hx. destruct Hx as [<-|Hx]; [right; left; simpl; auto | auto].
   - rewrite E in j_len0. simpl in *. auto.
+  - eapply Permutation_NoDup; [exact HPP | exact N1].
+  - intros x Hx. apply N2. eapply Permutation_in. apply Permutation_sym. exact HPP. exact Hx.
+  - intros k0 a0 b0 c0 d H. destruct (N3 _ _ _ _ _ H) as [?|Hx]; auto.
+    apply (Permutation_in _ HX) in Hx. destruct Hx as [Hp|Hx]; auto.
+    exfalso. destruct (hole_not_handler _ _ Hhole _ _ _ _ _ H) as [A _]. apply A. auto.
+  - intros k0 a0 b0 c0 d H. destruct (N4 _ _ _ _ _ H) as [?|Hx]; auto.
+    apply (Permutation_in _ HX) in Hx. destruct Hx as [Hp|Hx]; auto.
+    exfalso. destruct (hole_not_handler _ _ Hhole _ _ _ _ _ H) as [_ A]. apply A. auto.
+  - intros q t Hq. destruct (N6 _ _ Hq) as [A B]. split; auto. intros Hx. apply A.
+    eapply Permutation_in. apply Permutation_sym. exact HPP. exact Hx.
+Qed.
+
+Lemma perm_breaks {A} (b cr X : list A) : Permutation ((b ++ cr) ++ X) (cr ++ rev b ++ X).
+Proof.
+  eapply Permutation_trans. apply Permutation_app_tail. apply Permutation_app_comm.
+  rewrite <- app_assoc. apply Permutation_app_head. apply Permutation_app_tail. apply Permutation_rev.
 Qed.
 
 Lemma TJ_pop_loop n X fs : clean fs = true -> TJ (S n) X fs pop_loop (fun _ => fs) (fun _ => X) n.
@@ -1114,7 +1202,8 @@ Proof.
   assert (Hf1 : holds (map FHole bps ++ fs) s1 G).
   { unfold holds. apply Forall_app. split; auto. apply Forall_map. eapply Forall_impl; [|exact Hb1]. auto. }
   assert (Hj1 : jinv n (bps ++ X) (map FHole bps ++ fs) (s_cur s1) (fst G)).
-  { destruct Hj. constructor; cbn; auto.
+  { pose proof (j_h1 _ _ _ _ _ Hj) as JH1. pose proof (j_h2 _ _ _ _ _ Hj) as JH2.
+    destruct Hj. constructor; cbn; auto.
     - intros k0 o a0 b0 H1 H2. destruct (j_jumps0 k0 o a0 b0 H1 H2) as [?|[Hb|Hx]]; auto.
       + unfold bps. destruct (k_breaks (s_cur s)) as [|b r]; simpl in *. contradiction.
         apply in_app_or in Hb. destruct Hb as [Hb|Hb]; auto.
@@ -1125,11 +1214,25 @@ Proof.
     - destruct (k_loops (s_cur s)); simpl in *; lia.
     - assert (E : lof (map FHole bps ++ fs) = []).
       { clear -Hcl. induction bps; simpl; auto. apply clean_lof; auto. }
-      rewrite E. intros k []. }
+      rewrite E. intros k [].
+    - (* nodup *) unfold bps. destruct (k_breaks (s_cur s)) as [|b r]; simpl in *; auto.
+      eapply Permutation_NoDup; [|exact j_nodup0]. apply perm_breaks.
+    - (* xle *) intros x Hx. apply j_xle0. unfold bps in Hx. destruct (k_breaks (s_cur s)) as [|b r]; simpl in *; auto.
+      rewrite !in_app_iff in *. rewrite <- in_rev in Hx. tauto.
+    - intros k0 a0 b0 c0 d H1. destruct (JH1 _ _ _ _ _ H1); auto. right. apply in_or_app; auto.
+    - intros k0 a0 b0 c0 d H1. destruct (JH2 _ _ _ _ _ H1); auto. right. apply in_or_app; auto.
+    - intros q t Hq. assert (Hq' : In (q, t) (cof fs)).
+      { clear -Hq. induction bps; simpl in *; auto. }
+      eapply j_catch0; eauto.
+    - intros q t Hq. assert (Hq' : In (q, t) (cof fs)).
+      { clear -Hq. induction bps; simpl in *; auto. }
+      destruct (j_cfresh0 _ _ Hq') as [A B]. split; auto. intros Hx. apply A.
+      unfold bps in Hx. destruct (k_breaks (s_cur s)) as [|b r]; simpl in *; auto.
+      rewrite !in_app_iff in *. rewrite <- in_rev in Hx. tauto. }
   destruct (HT _ _ _ _ A1 Hf1 Hj1 H) as (G2 & B1 & B2 & B3 & B4).
   exists G2. split; auto. split. eapply le_trans; [exact A2|exact B2]. split.
   - unfold holds in B3. apply Forall_app in B3. exact (proj2 B3).
-  - eapply jinv_weaken; [reflexivity| |exact B4]. rewrite (clean_lof _ Hcl). intros k [].
+  - eapply jinv_weaken; [reflexivity| |exact B4]. rewrite sig_holes. apply incl_refl.
 Qed.
 
 (* ------------------------------------------------------------------ *)
@@ -1260,15 +1363,13 @@ Qed.
 (* functions                                                            *)
 Lemma jinv_new k name : jinv 0 [] [] (new_comp k name) [].
 Proof.
-  constructor; simpl; auto.
-  - intros k0 o a b H. destruct k0; discriminate.
-  - intros k0 a b H. destruct k0; discriminate.
-  - intros k0 [].
-  - intros k0 H. destruct k0; discriminate.
+  constructor; simpl; auto; try solve [constructor]; intros; try contradiction;
+    try (match goal with H : nth_error [] ?k = _ |- _ => destruct k; discriminate end).
+  intros k0 H. destruct k0; discriminate.
 Qed.
 
 Definition plain_instr (i : ainstr) : Prop :=
-  (forall ks nu, iok ks nu i) /\ is_jump16 (fst i) = false /\ fst i <> OpLoop.
+  (forall ks nu, iok ks nu i) /\ is_jump16 (fst i) = false /\ fst i <> OpLoop /\ fst i <> OpPushExcHandler.
 
 Definition pushes (s : cstate) (is_ : list ainstr) (l : N) : cstate :=
   fold_left (fun s i => pushb s (enc i) l) is_ s.
@@ -1282,7 +1383,7 @@ Lemma pushes_ok0 fs l is_ : forall s G,
 Proof.
   induction is_ as [|i r IH]; intros s G Hs Hf Hp.
   - simpl. rewrite app_nil_r. destruct G. simpl. split; auto. split; auto. apply le_refl.
-  - inversion Hp as [|? ? [Hi [H1 H2]] Hr]; subst.
+  - inversion Hp as [|? ? [Hi [H1 [H2 H2']]] Hr]; subst.
     destruct (push_ok fs s G i l Hs Hf (Hi _ _)) as (A1 & A2 & A3).
     destruct (IH (pushb s (enc i) l) (fst G ++ [i], snd G) A1 A3 Hr) as (B1 & B2 & B3 & B4 & B5 & B6).
     cbn [fst snd] in *. rewrite <- app_assoc in *. simpl in *.
@@ -1296,13 +1397,16 @@ Proof.
   intros Hp H Ho. destruct (Nat.lt_ge_cases k (length g)) as [Hlt|Hge].
   - split; auto. rewrite nth_error_app1 in H; auto.
   - exfalso. rewrite nth_error_app2 in H by lia. apply nth_error_In in H. rewrite Forall_forall in Hp.
-    destruct (Hp _ H) as (_ & H1 & H2). simpl in *. destruct Ho as [Ho| ->]; congruence.
+    destruct (Hp _ H) as (_ & H1 & H2 & _). simpl in *. destruct Ho as [Ho| ->]; congruence.
 Qed.
 
 Lemma jinv_push_list n X fs c g is_ :
   jinv n X fs c g -> Forall plain_instr is_ -> jf_ok (g ++ is_) -> jinv n X fs c (g ++ is_).
 Proof.
-  intros [] Hp Hjf. constructor; auto.
+  intros J Hp Hjf.
+  assert (HC : hcore X fs c (g ++ is_)).
+  { apply hcore_app. eapply jinv_hcore; eauto. eapply Forall_impl; [|exact Hp]. intros i Hi. apply Hi. }
+  hc HC. destruct J. constructor; auto.
   - intros k o a b H1 H2. destruct (nth_error_app_plain _ _ _ _ _ _ Hp H1 (or_introl H2)) as [Hk H1'].
     rewrite pos_app_le by lia. destruct (j_jumps0 k o a b H1' H2) as [?|[?|?]]; auto. left. apply bnd_app; auto.
   - intros k a b H1. destruct (nth_error_app_plain _ _ _ _ _ _ Hp H1 (or_intror eq_refl)) as [Hk H1'].
@@ -1326,10 +1430,10 @@ Lemma emit_return_explicit l s :
 Proof.
   unfold emit_return, cbind, cur, cwhen, cret.
   assert (P0 : plain_instr (OpGetLocal, [0%N])).
-  { split; [|split; [reflexivity|discriminate]]. intros. unfold iok. simpl. eexists; split; eauto. discriminate. }
-  assert (P1 : plain_instr (OpNil, [])) by (split; [|split; [reflexivity|discriminate]]; intros; reflexivity).
-  assert (P2 : plain_instr (OpJumpFinally, [])) by (split; [|split; [reflexivity|discriminate]]; intros; reflexivity).
-  assert (P3 : plain_instr (OpReturn, [])) by (split; [|split; [reflexivity|discriminate]]; intros; reflexivity).
+  { split; [|split; [reflexivity|split; discriminate]]. intros. unfold iok. simpl. eexists; split; eauto. discriminate. }
+  assert (P1 : plain_instr (OpNil, [])) by (split; [|split; [reflexivity|split; discriminate]]; intros; reflexivity).
+  assert (P2 : plain_instr (OpJumpFinally, [])) by (split; [|split; [reflexivity|split; discriminate]]; intros; reflexivity).
+  assert (P3 : plain_instr (OpReturn, [])) by (split; [|split; [reflexivity|split; discriminate]]; intros; reflexivity).
   destruct (fk_eqb _ _), (k_in_try _); rewrite ?emit_op8_push, ?emit_op_push.
   - exists [(OpGetLocal, [0%N]); (OpJumpFinally, []); (OpReturn, [])]. split; [reflexivity|]. split; [discriminate|]. split; auto. split.
     exists [(OpGetLocal, [0%N]); (OpJumpFinally, [])]. reflexivity.
@@ -1365,6 +1469,19 @@ Proof.
     rewrite pos_app_le by lia. destruct (j_loops0 k a b H1'). split; auto.
 Qed.
 
+Lemma jinv_final_handlers c g is_ :
+  jinv 0 [] [] c g -> is_ <> [] -> Forall plain_instr is_ -> handlers_in (g ++ is_).
+Proof.
+  intros J Hne Hp k a b c0 d H.
+  assert (S : forall t, bnd g t -> sbnd (g ++ is_) t).
+  { intros t (k' & Hk & <-). exists k'. split. rewrite app_length. destruct is_; [congruence|simpl; lia]. apply pos_app_le; auto. }
+  apply nth_error_app_old in H. destruct H as [[Hk H]|H].
+  - rewrite pos_app_le by lia. split.
+    + destruct (j_h1 _ _ _ _ _ J _ _ _ _ _ H) as [?|[]]; auto.
+    + destruct (j_h2 _ _ _ _ _ J _ _ _ _ _ H) as [?|[]]; auto.
+  - exfalso. rewrite Forall_forall in Hp. destruct (Hp _ H) as (_ & _ & _ & Hh). apply Hh. reflexivity.
+Qed.
+
 Lemma TJ_emit_return n X fs l : TJ n X fs (emit_return l) (fun _ => fs) (fun _ => X) n.
 Proof.
   intros s G a s' Hs Hf Hj H. destruct (emit_return_explicit l s) as (ris & Er & Hne & Hpl & _ & Hjf).
@@ -1378,7 +1495,7 @@ Lemma TJ_jf_return n X fs l :
 Proof.
   intros s G a s' Hs Hf Hj H. unfold cbind in H. rewrite !emit_op_push in H. inversion H; subst.
   assert (Hpl : Forall plain_instr [(OpJumpFinally, []); (OpReturn, [])]).
-  { repeat constructor; intros; try reflexivity; discriminate. }
+  { repeat constructor; intros; try reflexivity; try discriminate. }
   destruct (pushes_ok fs l [(OpJumpFinally, []); (OpReturn, [])] s G n X Hs Hf Hpl) as (A1 & A2 & A3 & A4); auto.
   apply jf_ok_snoc2. apply (j_jf _ _ _ _ _ Hj).
   eexists. split; [exact A1|]. split; [exact A2|]. split; [exact A3|exact A4].
@@ -1419,7 +1536,7 @@ Proof.
   { split; simpl; auto. destruct Hc3. unfold func_of_comp. econstructor; eauto. rewrite Nat2N.id. auto. }
   assert (Hjf : jgood_func (fst fu)).
   { simpl. destruct Hc3. unfold func_of_comp. econstructor; eauto. rewrite Nat2N.id. auto.
-    eapply jinv_final_strict; eauto. apply (j_jf _ _ _ _ _ Hj3). exists (fst G2 ++ r0). first [rewrite Hr0, app_assoc | rewrite app_assoc]; reflexivity.
+    eapply jinv_final_strict; eauto. eapply jinv_final_handlers; eauto. apply (j_jf _ _ _ _ _ Hj3). exists (fst G2 ++ r0). first [rewrite Hr0, app_assoc | rewrite app_assoc]; reflexivity.
     apply (j_consts _ _ _ _ _ Hj3). }
   assert (Hf4 : holds (FPure (fu_good fu /\ jgood_func (fst fu) /\ Pu (snd fu)) :: fs) s4 G).
   { constructor. simpl. auto. eapply holds_le; eauto. left. simpl. apply Hxe. }
@@ -1463,26 +1580,83 @@ Proof.
   destruct Hmore as [-> | ->]; auto. constructor; auto. constructor; auto.
 Qed.
 
-Lemma TJ_push_handler {A} n X fs l (K : nat -> C A) R X2 n2 :
-  (forall hp, TJ n X (FHandler hp :: fs) (K hp) R X2 n2) ->
+Lemma hcore_push_handler X fs c g a b cc d :
+  hcore X fs c g ->
+  hcore ((length (flat g) + 1) :: (length (flat g) + 1 + 2) :: X) fs c (g ++ [(OpPushExcHandler, [a; b; cc; d])]).
+Proof.
+  intros (N1 & N2 & N3 & N4 & N5 & N6).
+  set (hp := length (flat g) + 1).
+  assert (Hlf : length (flat (g ++ [(OpPushExcHandler, [a; b; cc; d])])) = length (flat g) + 5).
+  { rewrite flat_app, app_length. simpl. lia. }
+  assert (Hcase : forall k a0 b0 c0 d0, nth_error (g ++ [(OpPushExcHandler, [a; b; cc; d])]) k = Some (OpPushExcHandler, [a0; b0; c0; d0]) ->
+            (k < length g /\ nth_error g k = Some (OpPushExcHandler, [a0; b0; c0; d0])) \/ k = length g).
+  { intros k a0 b0 c0 d0 H. apply nth_error_snoc in H. destruct H as [[? ?]|[? ?]]; auto. }
+  assert (Hperm : Permutation (concat (k_breaks c) ++ hp :: (hp + 2) :: X) (hp :: (hp + 2) :: concat (k_breaks c) ++ X)).
+  { eapply Permutation_trans. apply Permutation_sym, Permutation_middle. constructor.
+    apply Permutation_sym, Permutation_middle. }
+  assert (Hin : forall x, In x (concat (k_breaks c) ++ hp :: (hp + 2) :: X) <-> x = hp \/ x = hp + 2 \/ In x (concat (k_breaks c) ++ X)).
+  { intros x. rewrite !in_app_iff. simpl. intuition. }
+  repeat split.
+  - eapply Permutation_NoDup. apply Permutation_sym. exact Hperm.
+    constructor. intros [E|Hx]. lia. apply N2 in Hx. unfold hp in *. lia.
+    constructor; auto. intros Hx. apply N2 in Hx. unfold hp in *. lia.
+  - intros x Hx. apply Hin in Hx. rewrite Hlf. destruct Hx as [->|[->|Hx]]; unfold hp; try lia. apply N2 in Hx. lia.
+  - intros k a0 b0 c0 d0 H. destruct (Hcase _ _ _ _ _ H) as [[Hk H']| ->].
+    + rewrite pos_app_le by lia. destruct (N3 _ _ _ _ _ H'); [left; apply bnd_app; auto | right; right; right; auto].
+    + right. left. rewrite pos_app_le, pos_all by lia. reflexivity.
+  - intros k a0 b0 c0 d0 H. destruct (Hcase _ _ _ _ _ H) as [[Hk H']| ->].
+    + rewrite pos_app_le by lia. destruct (N4 _ _ _ _ _ H'); [left; apply bnd_app; auto | right; right; right; auto].
+    + right. right. left. rewrite pos_app_le, pos_all by lia. unfold hp. lia.
+  - intros p t Hpt k a0 b0 c0 d0 H Hp. destruct (Hcase _ _ _ _ _ H) as [[Hk H']| ->].
+    + rewrite pos_app_le in * by lia. eapply N5; eauto.
+    + exfalso. rewrite pos_app_le, pos_all in Hp by lia. destruct (N6 _ _ Hpt) as [_ Hle]. lia.
+  - intros Hx. apply Hin in Hx. destruct (N6 _ _ H) as [A B]. unfold hp in Hx. destruct Hx as [->|[->|Hx]]; try lia. auto.
+  - destruct (N6 _ _ H) as [_ B]. rewrite Hlf. lia.
+Qed.
+
+Lemma jinv_push_handler n X fs c g a b cc d :
+  jinv n X fs c g ->
+  jinv n ((length (flat g) + 1) :: (length (flat g) + 1 + 2) :: X) fs c (g ++ [(OpPushExcHandler, [a; b; cc; d])]).
+Proof.
+  intros J. pose proof (hcore_push_handler _ _ _ _ a b cc d (jinv_hcore _ _ _ _ _ J)) as HC. hc HC.
+  destruct J. constructor; auto.
+  - intros k o' a' b' H1 H2. apply nth_error_snoc in H1. destruct H1 as [[Hk H1]|[Hk H1]].
+    + rewrite pos_app_le by lia. destruct (j_jumps0 k o' a' b' H1 H2) as [?|[?|?]]; auto.
+      left. apply bnd_app; auto. right; right; right; right; auto.
+    + inversion H1.
+  - intros k a' b' H1. apply nth_error_snoc in H1. destruct H1 as [[Hk H1]|[Hk H1]].
+    + rewrite pos_app_le by lia. destruct (j_loops0 k a' b' H1). split; auto. apply bnd_app; auto.
+    + inversion H1.
+  - eapply Forall_impl; [|eauto]. intros. apply bnd_app; auto.
+  - apply jf_ok_snoc; auto. discriminate.
+Qed.
+
+Lemma TJ_push_handler {A} n X fs l (K : nat -> nat -> C A) R X2 n2 :
+  (forall hp, TJ n (hp :: (hp + 2) :: X) (FHandler hp :: fs) (K hp (hp + 4)) R X2 n2) ->
   TJ n X fs (cbind (emit_op OpPushExcHandler l) (fun _ => cbind code_len (fun hp =>
         cbind (emit_byte 255%N l) (fun _ => cbind (emit_byte 255%N l) (fun _ =>
-        cbind (emit_byte 255%N l) (fun _ => cbind (emit_byte 255%N l) (fun _ => K hp))))))) R X2 n2.
+        cbind (emit_byte 255%N l) (fun _ => cbind (emit_byte 255%N l) (fun _ =>
+        cbind code_len (fun pp => K hp pp)))))))) R X2 n2.
 Proof.
   intros HK s G a s' Hs Hf Hj H. unfold emit_op in H. rewrite bind_push in H.
   unfold cbind at 1 in H. unfold code_len at 1 in H.
   rewrite !bind_push, !pushb_pushb in H.
+  unfold cbind at 1 in H. unfold code_len at 1 in H.
   destruct (push_ok fs s G (OpPushExcHandler, [255; 255; 255; 255]%N) l Hs Hf) as (B1 & B2 & B3).
   { unfold iok. simpl. eauto 6. }
-  match type of H with K ?hp _ = _ => set (hp0 := hp) in * end.
-  assert (Hh : holds (FHandler hp0 :: fs) (pushb s (enc (OpPushExcHandler, [255; 255; 255; 255]%N)) l)
+  pose proof (ci_code _ _ (proj1 Hs)) as Hcode.
+  match type of H with K ?hp ?pp _ = _ =>
+    assert (E1 : hp = length (flat (fst G)) + 1) by (cbn; rewrite app_length; simpl; congruence);
+    assert (E2 : pp = length (flat (fst G)) + 1 + 4) by (cbn; rewrite app_length; simpl; rewrite Hcode; lia);
+    rewrite E1, E2 in H end.
+  assert (Hh : holds (FHandler (length (flat (fst G)) + 1) :: fs) (pushb s (enc (OpPushExcHandler, [255; 255; 255; 255]%N)) l)
                      (fst G ++ [(OpPushExcHandler, [255; 255; 255; 255]%N)], snd G)).
-  { constructor; auto. simpl. exists (fst G), 255%N, 255%N, 255%N, 255%N, []. split; auto.
-    destruct Hs as [[] _]. unfold hp0. cbn. rewrite app_length. simpl. congruence. }
-  assert (Hj' : jinv n X (FHandler hp0 :: fs) (s_cur (pushb s (enc (OpPushExcHandler, [255; 255; 255; 255]%N)) l))
+  { constructor; auto. simpl. exists (fst G), 255%N, 255%N, 255%N, 255%N, []. split; auto. }
+  assert (Hj' : jinv n ((length (flat (fst G)) + 1) :: (length (flat (fst G)) + 1 + 2) :: X) (FHandler (length (flat (fst G)) + 1) :: fs)
+                     (s_cur (pushb s (enc (OpPushExcHandler, [255; 255; 255; 255]%N)) l))
                      (fst G ++ [(OpPushExcHandler, [255; 255; 255; 255]%N)])).
-  { apply jinv_pushb. eapply jinv_weaken; [reflexivity| |apply jinv_push; eauto; discriminate]. simpl. apply incl_refl. }
-  destruct (HK hp0 _ _ _ _ B1 Hh Hj' H) as (G5 & A1 & A2 & A3 & A4).
+  { apply jinv_pushb. eapply jinv_weaken; [reflexivity| |apply jinv_push_handler; eauto]. simpl. apply incl_refl. }
+  destruct (HK _ _ _ _ _ B1 Hh Hj' H) as (G5 & A1 & A2 & A3 & A4).
   exists G5. split; auto. split; auto. eapply le_trans; eauto.
 Qed.
 
